@@ -6,7 +6,7 @@ import re
 
 from extract import read, strip_cpp_comments, func_body, body_after, lean_bool
 
-IMPORTS = ["QuillModel.Exit.Model"]
+IMPORTS = ["QuillModel.Exit.Model", "QuillModel.Exit.Stop"]
 
 SIG = {"SIGSEGV": ".segv", "SIGABRT": ".abrt", "SIGFPE": ".fpe", "SIGILL": ".ill", "SIGINT": ".int",
        "SIGTERM": ".term", "SIGALRM": ".alrm", "SIGUSR1": ".usr1"}
@@ -182,6 +182,8 @@ ACTIONS = [
     (r"^QUILL_SIGNAL_HANDLER_LOG\s*\(\s*logger\s*,\s*LogLevel::Info\s*,", ".logNotice"),
     (r"^QUILL_SIGNAL_HANDLER_LOG\s*\(\s*logger\s*,\s*LogLevel::Critical\s*,", ".logCritical"),
     (r"^logger\s*->\s*flush_log\s*\(\s*0\s*\)$", ".flush"),
+    # candidate repair of F27: the same request, but the wait ends when backend_thread_id becomes 0 (see flushEndsWhenBackendGone)
+    (r"^flush_log_while_backend_alive\s*\(\s*logger\s*\)$", ".flush"),
     (r"^std::exit\s*\(\s*EXIT_SUCCESS\s*\)$", ".exitSuccess"),
     (r"^std::signal\s*\(\s*signal_number\s*,\s*SIG_DFL\s*\)$", ".restoreDefault"),
     (r"^std::raise\s*\(\s*signal_number\s*\)$", ".reraise"),
@@ -328,6 +330,14 @@ def extract(repo, failures):
     # --- SignalHandler.h ---------------------------------------------------------------------------
     prog, calls = extract_on_signal(sh, failures)
     d["onSignalProg"] = prog
+    # does the handler's wait for its flush request end when the backend thread is gone? (current code: flush_log(0) waits for ever)
+    fw = func_body(sh, r"void\s+flush_log_while_backend_alive\s*\(\s*LoggerImpl<TFrontendOptions>\s*\*\s*logger\s*\)\s*\{")
+    uses_helper = any(re.match(r"^flush_log_while_backend_alive\(logger\)$", c_) for c_ in calls)
+    plain = any(re.match(r"^logger->flush_log\(0\)$", c_) for c_ in calls)
+    gives_up = bool(fw and len(re.findall(r"SignalHandlerContext::instance\(\)\.backend_thread_id\.load\(\)\s*==\s*0", fw)) >= 2)
+    if uses_helper and (plain or not gives_up):
+        failures.append("on_signal: flush_log_while_backend_alive is mixed with flush_log(0) or does not test backend_thread_id in both waits")
+    d["flushEndsWhenBackendGone"] = bool(uses_helper and not plain and gives_up)
     m = re.search(r"std::vector<int>\s+catchable_signals\s*\{([^}]*)\}", sh)
     names = [x.strip() for x in m.group(1).split(",") if x.strip()] if m else []
     if not m:
@@ -401,7 +411,8 @@ def extract(repo, failures):
     stopbt = r"detail::BackendManager::instance\(\)\.stop_backend_thread\(\)"
     sc = flat_calls(parse_block(stop)) if stop else []
     d["stopStopsBackendThread"] = order_ok(sc, ["^" + stopbt + "$"])
-    d["stopClearsBackendId"] = order_ok(sc, ["^" + stopbt + "$", "^" + clear + "$"])
+    # (whether the id is cleared at all; WHERE in the sequence is `stopSeq` below)
+    d["stopClearsBackendId"] = order_ok(sc, ["^" + stopbt + "$"]) and order_ok(sc, ["^" + clear + "$"])
 
     def atexit_lambda(calls_):
         for c in calls_:
@@ -410,8 +421,7 @@ def extract(repo, failures):
         return ""
     ap, as_ = atexit_lambda(cp), atexit_lambda(cs)
     d["atexitStopsBackendThread"] = bool(re.search(stopbt, ap) and re.search(stopbt, as_))
-    ms = re.search(stopbt + r"\s*;\s*" + clear, as_)
-    d["atexitClearsBackendId"] = bool(ms)
+    d["atexitClearsBackendId"] = bool(re.search(stopbt, as_) and re.search(clear, as_))
 
     # --- BackendManager.h --------------------------------------------------------------------------
     sb = func_body(bm, r"void\s+stop_backend_thread\s*\(\s*\)\s*noexcept\s*\{")
@@ -491,6 +501,32 @@ def extract(repo, failures):
         failures.append("BackendOptions::wait_for_queues_to_empty_before_exit default not found")
     d["waitForQueuesDefault"] = bool(m and m.group(1) == "true")
 
+    # --- Backend::stop() / the atexit handler of the signal-handler overload as their sequence of atomic steps ------
+    # (flattened through stop_backend_thread and BackendWorker::stop; statements that are none of the steps are skipped:
+    # only the relative order of the steps matters to the model — Exit/Stop.lean)
+    def steps_of(calls_, table):
+        out = []
+        for c_ in calls_:
+            for rx, st in table:
+                if re.search(rx, c_):
+                    out += st
+                    break
+        return out
+    worker_steps = steps_of(flat_calls(parse_block(stw)) if stw else [], [
+        (r"_is_worker_running\.exchange\(false\)", [".exchangeRunning"]), (r"^notify\(\)$", [".notify"]),
+        (r"^_worker_thread\.join\(\)$", [".join"]), (r"^_worker_thread_id\.store\(0u?\)$", [".clearWorkerTid"])])
+    sbt_steps = steps_of(flat_calls(parse_block(sb)) if sb else [], [
+        (r"^_backend_worker\.stop\(\)$", worker_steps), (r"_start_once_flag\.exchange\(", [".renewOnce"])])
+    top_table = [("^" + stopbt + "$", sbt_steps), ("^" + clear + "$", [".clearCtxId"])]
+    d["stopSeq"] = steps_of(sc, top_table)
+    ml = re.search(r"std::atexit\(\s*\[\s*\]\s*\(\s*\)\s*\{", as_)
+    at_body = body_after(as_, ml.end() - 1) if ml else None
+    d["atexitSeq"] = steps_of(flat_calls(parse_block(at_body)) if at_body else [], top_table)
+    if not d["stopSeq"]:
+        failures.append("Backend::stop(): no step of the stop sequence recognised")
+    if not d["atexitSeq"]:
+        failures.append("atexit handler of start(BackendOptions, SignalHandlerOptions): no step of the stop sequence recognised")
+
     L = []
     L.append("/-- control-flow skeleton of `detail::on_signal` (non-Windows build), statement by statement -/")
     L.append("def onSignalProg : Exit.Prog :=\n  " + prog)
@@ -501,6 +537,10 @@ def extract(repo, failures):
     L.append("    overload's `atexit` handler reset the backend thread id cached for the signal handler -/")
     L.append("def lifeParams : Exit.LParams :=\n  { renewOnce := %s, stopClearsId := %s, atexitClearsId := %s }" % (
         lean_bool(d["stopRenewsOnceFlag"]), lean_bool(d["stopClearsBackendId"]), lean_bool(d["atexitClearsBackendId"])))
+    L.append("/-- `Backend::stop()` flattened through `stop_backend_thread` and `BackendWorker::stop`: its atomic steps in source order -/")
+    L.append("def stopSeq : List Exit.SStep := [%s]" % ", ".join(d["stopSeq"]))
+    L.append("/-- the same for the `atexit` handler registered by `start(BackendOptions, SignalHandlerOptions)` -/")
+    L.append("def atexitSeq : List Exit.SStep := [%s]" % ", ".join(d["atexitSeq"]))
     L.append("/-- structural facts (see tools/extractors/exit.py for the exact shapes) -/")
     for k in sorted(d):
         if isinstance(d[k], bool) and k not in ("stopRenewsOnceFlag", "stopClearsBackendId", "atexitClearsBackendId"):
@@ -508,12 +548,13 @@ def extract(repo, failures):
     return d, "\n".join(L)
 
 
-_FALSE = ["alarmRestoresThenRaisesStored", "atexitStopsBackendThread", "emptyCheckCoversQueuesAndBuffers", "exitFlushesSinksWhenEmpty",
+_FALSE = ["flushEndsWhenBackendGone", "alarmRestoresThenRaisesStored", "atexitStopsBackendThread", "emptyCheckCoversQueuesAndBuffers", "exitFlushesSinksWhenEmpty",
           "exitHonoursWaitOption", "exitLoopShape", "initInstallsHandlers", "manualDtorCallsExit", "noticeMacroChecksLevelThenLogs",
           "onceFlagIsTheCurrentOne", "plainStartSpawnsThenRegistersAtexit", "runPollsThenExits", "runWaitsForRunningFlag",
           "shStartOrder", "startBackendThreadRuns", "startUsesOnceFlag", "stopBackendThreadStopsWorker", "stopStopsBackendThread",
           "waitForQueuesDefault", "workerStopShape"]
 FALLBACK = ({},
             "def onSignalProg : Exit.Prog := .done\ndef catchableDefault : List Exit.Sig := []\ndef signalTimeoutSeconds : Nat := 0\n"
-            "def lifeParams : Exit.LParams := { renewOnce := false, stopClearsId := false, atexitClearsId := false }\n" +
+            "def lifeParams : Exit.LParams := { renewOnce := false, stopClearsId := false, atexitClearsId := false }\n"
+            "def stopSeq : List Exit.SStep := []\ndef atexitSeq : List Exit.SStep := []\n" +
             "\n".join("def %s : Bool := false" % k for k in _FALSE))
